@@ -59,6 +59,7 @@ structure Cfg where
   assertChecked : Kind → Bool    -- the backtrack callback of the kind's resolver asserts in comma-ok form
   nilChecked    : Bool           -- drill-down: `cursor == nil || isNilPointer(cursor)` after every token
   apGuarded     : Bool           -- drill-down: `pathPart == "additionalProperties" && c.Value != nil`
+  keyedByKind   : Bool           -- `visitedRefs` / `backtrack` are keyed by kind and text (7245059), not by the text alone
 
 /-- `var resolved XRef; *resolved = *cursor`: a new Go object with the content of the target wrapper -/
 def Node.copyAs : Node → Nat → Node | .mk _ d k r e ks, i => .mk i d k r e ks
@@ -85,11 +86,16 @@ inductive Tgt
 inductive Site | assertKind | typedNil | drill
   deriving DecidableEq, Repr
 
+/-- key of `visitedRefs` / `backtrack`: `"<Kind> " + ref` since 7245059, the text alone before -/
+abbrev Key := Option Kind × Text
+
+def keyOf (cfg : Cfg) (kind : Kind) (t : Text) : Key := (if cfg.keyedByKind then some kind else none, t)
+
 structure St where
   value   : List Nat                     -- ids of wrappers whose `Value` is set
   pathed  : List Nat                     -- ids of wrappers whose `refPath` is set
-  inprog  : List Text                    -- `visitedRefs`
-  pending : List (Text × Kind × Nat)     -- `backtrack`: text ↦ (kind asserted by the callback, wrapper to fill)
+  inprog  : List Key                     -- `visitedRefs`
+  pending : List (Key × Kind × Nat)      -- `backtrack`: key ↦ (kind asserted by the callback, wrapper to fill)
   deriving Repr, DecidableEq
 
 def St.init : St := ⟨[], [], [], []⟩
@@ -117,27 +123,27 @@ def stepKids (f : Node → St → Res) : List Node → St → Res
 
 /-- does every callback registered under `t` survive a value of kind `k`? (`value.(*K)`: the callback's own
     kind, or an assertion in comma-ok form) -/
-def callbacksOK (cfg : Cfg) (pending : List (Text × Kind × Nat)) (t : Text) (k : Kind) : Bool :=
+def callbacksOK (cfg : Cfg) (pending : List (Key × Kind × Nat)) (t : Key) (k : Kind) : Bool :=
   pending.all (fun p => p.1 != t || p.2.1 == k || cfg.assertChecked p.2.1)
 
 /-- the wrappers filled by the callbacks of `t` for a value of kind `k` (the others return without assigning) -/
-def filled (pending : List (Text × Kind × Nat)) (t : Text) (k : Kind) : List Nat :=
+def filled (pending : List (Key × Kind × Nat)) (t : Key) (k : Kind) : List Nat :=
   (pending.filter (fun p => p.1 == t && p.2.1 == k)).map (·.2.2)
 
 /-- `component.Value = …; component.setRefPath(…)`, then `unvisitRef(t, value)` with a non-nil value of
     kind `k`: run and drop the callbacks of `t` (each sets `Value` and `refPath`), forget `t` -/
-def unvisit (st : St) (t : Text) (k : Kind) (id : Nat) : St :=
+def unvisit (st : St) (t : Key) (k : Kind) (id : Nat) : St :=
   { value := st.value ++ [id] ++ filled st.pending t k,
     pathed := st.pathed ++ [id] ++ filled st.pending t k,
     inprog := st.inprog.erase t,
     pending := st.pending.filter (·.1 != t) }
 
 /-- `component.Value = nil; component.setRefPath(…)`, then `unvisitRef(t, nil)`: callbacks are dropped without running -/
-def unvisitNil (st : St) (t : Text) (id : Nat) : St :=
+def unvisitNil (st : St) (t : Key) (id : Nat) : St :=
   { st with pathed := st.pathed ++ [id], inprog := st.inprog.erase t, pending := st.pending.filter (·.1 != t) }
 
 /-- after the chain call on the resolved wrapper `n'` returned `r` -/
-def finish (cfg : Cfg) (n' : Node) (kind : Kind) (id : Nat) (t : Text) (r : Res) : Res :=
+def finish (cfg : Cfg) (n' : Node) (kind : Kind) (id : Nat) (t : Key) (r : Res) : Res :=
   match r with
   | .ok s2 =>
     -- `component.Value = resolved.Value`: set iff the resolved wrapper is a value or got its value
@@ -152,7 +158,7 @@ def finish (cfg : Cfg) (n' : Node) (kind : Kind) (id : Nat) (t : Text) (r : Res)
   | r => r
 
 /-- after the children of a single-file element were walked -/
-def finishSingle (cfg : Cfg) (kind : Kind) (id : Nat) (t : Text) (r : Res) : Res :=
+def finishSingle (cfg : Cfg) (kind : Kind) (id : Nat) (t : Key) (r : Res) : Res :=
   match r with
   | .ok s2 => if callbacksOK cfg s2.pending t kind then .ok (unvisit s2 t kind id) else .panic .assertKind
   | r => r
@@ -164,24 +170,28 @@ def resolve (cfg : Cfg) (w : World) : Nat → Node → St → Res
     else match ref with
       | none => stepKids (resolve cfg w fuel) kids st
       | some t =>
+        let key := keyOf cfg kind t
         if st.value.contains id then .ok st
-        else if st.inprog.contains t then .ok { st with pending := st.pending ++ [(t, kind, id)] }
+        else if st.inprog.contains key then .ok { st with pending := st.pending ++ [(key, kind, id)] }
         else
-          let st1 := { st with inprog := st.inprog ++ [t] }
+          let st1 := { st with inprog := st.inprog ++ [key] }
           match w.target doc t kind with
           | .err => .err
           | .nilPtr => .panic .typedNil
           | .drillPanic => .panic .drill
           | .single n' =>
-            -- the element is decoded into the component itself; its children are walked by this call
-            finishSingle cfg kind id t (stepKids (resolve cfg w fuel) n'.kids st1)
+            -- the element is decoded into the component itself; its children are walked by this call. A path
+            -- item file that is itself a reference is resolved first (376b90f: the recursive call on `&p`)
+            if kind == .pathItem && n'.ref.isSome then
+              finish cfg (n'.copyAs (copyId id n'.id)) kind id key (resolve cfg w fuel (n'.copyAs (copyId id n'.id)) st1)
+            else finishSingle cfg kind id key (stepKids (resolve cfg w fuel) n'.kids st1)
           | .wrapper n' =>
             -- `setPathRef(cursor)`: the target wrapper itself gets its location
             let st2 : St := { st1 with pathed := st1.pathed ++ [n'.id] }
             -- the copy of an already resolved wrapper has its value: the chain call returns at once
-            if st2.value.contains n'.id then finishSingle cfg kind id t (.ok st2)
-            else finish cfg (n'.copyAs (copyId id n'.id)) kind id t (resolve cfg w fuel (n'.copyAs (copyId id n'.id)) st2)
-          | .raw n' => finish cfg (n'.copyAs (copyId id n'.id)) kind id t (resolve cfg w fuel (n'.copyAs (copyId id n'.id)) st1)
+            if st2.value.contains n'.id then finishSingle cfg kind id key (.ok st2)
+            else finish cfg (n'.copyAs (copyId id n'.id)) kind id key (resolve cfg w fuel (n'.copyAs (copyId id n'.id)) st2)
+          | .raw n' => finish cfg (n'.copyAs (copyId id n'.id)) kind id key (resolve cfg w fuel (n'.copyAs (copyId id n'.id)) st1)
 
 /-- `ResolveRefsIn`: the component maps in the code's order, then the path items -/
 def load (cfg : Cfg) (w : World) (fuel : Nat) (roots : List Node) : Res :=
@@ -211,7 +221,12 @@ def NoNilTarget (w : World) : Prop := ∀ d t k, (w.target d t k).panics = false
 def Bounded (w : World) (S : Nat) : Prop :=
   (∀ d t k, t ∉ w.texts → w.target d t k = .err) ∧ ∀ d t k n, (w.target d t k).node? = some n → n.size ≤ S
 
-def fresh (w : World) (st : St) : Nat := (w.texts.filter (fun t => !st.inprog.contains t)).length
+def allKinds : List Kind := [.header, .parameter, .requestBody, .response, .schema, .securityScheme, .example, .callback, .link, .pathItem]
+
+/-- every key a text of the world can be in progress under -/
+def World.keys (w : World) : List Key := (none :: allKinds.map some).flatMap (fun ok => w.texts.map (fun t => (ok, t)))
+
+def fresh (w : World) (st : St) : Nat := (w.keys.filter (fun t => !st.inprog.contains t)).length
 
 /-! ### cycle-guarded descent: `(*Schema).validate` with its threaded stack -/
 
